@@ -12,6 +12,7 @@ THEOREMS = [
     ("EG.props.C03", "hop_table_complete"),
     ("EG.props.C03", "C03_host_rule"),
     ("EG.props.C03", "C03_request_faithful"),
+    ("EG.props.C03", "C03_request_content"),
     ("EG.props.C03", "C03_response_content"),
     ("EG.props.C03", "C03_well_framed"),
     ("EG.props.C03", "C03_refuted_compress_len"),
@@ -43,6 +44,7 @@ TRUSTED_BASE = [
     "gen/GenHop.v: the hopHeaders literal is re-extracted from pkg/filters/proxy/pool.go on every run by plugins/C03.py (string literals of the composite literal, comments stripped)",
     "net/http (server request parsing, transport request writing incl. User-Agent / Accept-Encoding additions and transparent gunzip, response framing rules), compress/gzip, net/url, net.ParseIP, textproto canonicalisation: observed / supplied as per-case oracle tables by the harness, modelled, not verified",
     "the raw socket client and raw backend of the harness (own HTTP/1.1 head and body-framing parser)",
+    "case files carry byte strings packed 7 bytes per primitive 63-bit integer (coq/lib/Pack.v) and unpacked by vm_compute: the kernel's primitive integer operations take part in evaluating cases; no registered theorem depends on them",
 ]
 ASSUMPTIONS = [
     "gunzip (gzip b) = Some b (Section hypothesis of C03_response_content / C03_request_faithful)",
@@ -67,8 +69,19 @@ MANIFEST = dict(
 FLAG_FIELDS = ["q_compress_keeps_length", "q_adaptor_body_keeps_length", "q_proxy_decoded_path", "q_stream_compress_panics"]
 
 
+def _pregen_body(repo, coqdir):
+    """model/Proxy.v builds on model/Body.v, whose constant comes from gen/GenBody.v (plugins/C07.py)."""
+    import importlib.util
+    path = os.path.join(os.path.dirname(os.path.abspath(__file__)), "C07.py")
+    spec = importlib.util.spec_from_file_location("plugin_C07_for_C03", path)
+    m = importlib.util.module_from_spec(spec)
+    spec.loader.exec_module(m)
+    m.pregen(repo, coqdir)
+
+
 def pregen(repo, coqdir):
     """Re-extract the hopHeaders table from the Go source into coq/gen/GenHop.v."""
+    _pregen_body(repo, coqdir)
     src = open(os.path.join(repo, "pkg/filters/proxy/pool.go")).read()
     m = re.search(r"var\s+hopHeaders\s*=\s*\[\]string\s*\{(.*?)\n\}", src, flags=re.S)
     body = ("(** GENERATED by plugins/C03.py from pkg/filters/proxy/pool.go (var hopHeaders) on every run - do not edit. *)\n"
@@ -90,7 +103,7 @@ def pregen(repo, coqdir):
 def coq_header(kf_open):
     on = {k.get("flag") for k in kf_open}
     fields = "; ".join("%s := %s" % (f, "true" if f in on else "false") for f in FLAG_FIELDS)
-    return ("From EG.lib Require Import Base Pack.\nFrom EG.model Require Import Body Proxy ProxyCheck.\n"
+    return ("From Coq Require Import Uint63.\nFrom EG.lib Require Import Base Pack.\nFrom EG.model Require Import Body Proxy ProxyCheck.\n"
             "Open Scope Z_scope.\nDefinition pinned : quirks := {| %s |}.\n" % fields)
 
 
@@ -238,7 +251,7 @@ def signature(c, r):
 
 
 def shrink_candidates(inp, grp):
-    if grp != "e2e":
+    if grp != "e2e" or os.environ.get("VERIF_NO_SHRINK"):
         return
     hs = inp.get("headers") or []
     for k in range(len(hs)):
